@@ -141,6 +141,47 @@ def gen_problem(rng, family=None, nmax=6, mmax=3, fixed_prob=0.3, allow_dom=True
     return spec, x0, y0
 
 
+def magnify(rng, spec, x0, p=0.2):
+    """Data of very different magnitudes (exact powers of two, so nothing is rounded): rows multiplied by
+    2^7..2^14 (large bound values, tiny multipliers), the objective multiplied by 2^7..2^14 (large
+    multipliers and bound duals), or the whole problem shifted far away from the origin (|x| ~ 2^10..2^18;
+    quadratic/affine families only).  Tolerances that are silently *relative* to such magnitudes show here."""
+    x0 = np.array(x0, float)
+    tags = []
+    if rng.random() < p and spec["m"]:
+        for i in range(spec["m"]):
+            if rng.random() < 0.6:
+                k = int(rng.choice([7, 10, 14]))
+                for key in ("A", "B"):
+                    M = np.array(spec[key], float)
+                    M[i] = np.ldexp(M[i], k)
+                    spec[key] = M
+                for key in ("b", "cl", "cu"):
+                    v = np.array(spec[key], float)
+                    v[i] = np.ldexp(v[i], k)
+                    spec[key] = v
+                tags.append("bigrow")
+    if rng.random() < p and spec.get("dom") is None and spec.get("expo") is None:
+        k = int(rng.choice([7, 10, 14]))
+        for key in ("Q", "q", "a"):
+            spec[key] = np.ldexp(np.array(spec[key], float), k)
+        tags.append("bigcost")
+    affine = (not np.any(np.array(spec["a"], float))) and (not np.any(np.array(spec["B"], float))) and spec.get("dom") is None and spec.get("expo") is None
+    if rng.random() < p and affine:
+        n = spec["n"]
+        s = np.ldexp(rng.choice([-1.0, 1.0], size=n), rng.integers(10, 19, size=n)) * (rng.random(n) < 0.7)
+        Q, A = np.array(spec["Q"], float).reshape(n, n), np.array(spec["A"], float).reshape(spec["m"], n)
+        spec["q"] = np.array(spec["q"], float) - Q @ s
+        spec["b"] = np.array(spec["b"], float) + A @ s
+        spec["xl"] = np.array(spec["xl"], float) + s
+        spec["xu"] = np.array(spec["xu"], float) + s
+        x0 = np.clip(x0 + s, spec["xl"], spec["xu"])
+        tags.append("far")
+    if tags:
+        spec["magnified"] = sorted(set(tags))
+    return x0
+
+
 def integer_bounds(rng, spec, x0):
     """All variable and row bounds become finite integers, so that the bound arrays can be handed over
     with an integer dtype (arrays written with integer literals).  Returns the (re-clipped) start."""
